@@ -39,8 +39,9 @@ def specs(tier):
                                  env=dict(env, VB_VLEN=3, VB_FIXW=0 if i % 6 == 0 else 1, VB_STORE=store, VB_STRATEGY=strat),
                                  bounds=dict(lines=3, skeleton=name, values="10 representative values (x 2 x 2 auxiliary values on every 6th skeleton)",
                                              checklines="0..3", store=store, merge_strategy=strat)))
-        for fmt, cl in itertools.product(("gff3", "gtf", "gff2"), (0, 1, 3)):
-            out.append(XSpec("fidelity[%s,arbitrary character,checklines=%d]" % (fmt, cl), H, "cond_fidelity", "reach_fidelity", timeout=3000,
+        for fmt, cl in itertools.product(("gff3", "gtf", "gff2"), (0, 3)):
+            # ~8 s per path: the gff3-family runs (39 character classes) need most of this budget; an unexhausted run is reported as such
+            out.append(XSpec("fidelity[%s,arbitrary character,checklines=%d]" % (fmt, cl), H, "cond_fidelity", "reach_fidelity", timeout=2400,
                              env=dict(VB_FMT=fmt, VB_ARB=1, VB_CL=cl, VB_VLEN=1),
                              bounds=dict(lines=3, value="1 ARBITRARY character in the line outside/inside the inspection window", checklines=cl)))
     return out
